@@ -33,6 +33,12 @@ var c10HasValue = [][2]string{
 	{`$each({"a":1,"b":2}, function($v){$v > 1 ? $v})`, `2`}, {`$count($each({"a":1,"b":2,"c":3}, function($v){$v > 1 ? $v}))`, `2`}, {`$map([1,2,3], function($v){$v > 1 ? $v})`, `[2,3]`},
 	{`$exists($each({"a":1}, function($v){nothing}))`, `false`}, {`$each({"a":1,"b":2}, function($v, $k){$k = "b" ? $v})`, `2`}, {`[$each({"a":1}, function($v){nothing})]`, `[]`},
 	{`nothing{"k": $type().$}`, `{}`}, {`$exists(nothing{"k": $string().$length()}.k)`, `false`}, {`nothing{"k": $spread()[]}`, `{}`},
+	// programs that denote an error, not the absence of a value: the error is
+	// reported as such, also inside an expression that would hide a missing value
+	{`$single([1,2,3], function($v){$v > 5})`, `!`}, {`$single([])`, `!`}, {`$single([1,2])`, `!`}, {`$exists($single([1], function($v){false}))`, `!`},
+	{`[$single([], function($v){true}), 0]`, `!`}, {`$count($single([1,2], function($v){$v = 0}))`, `!`},
+	{`$error("e")`, `!`}, {`$exists($error("e"))`, `!`}, {`[nothing, $error("e")]`, `!`}, {`$assert(false, "e")`, `!`}, {`"a" + 1`, `!`}, {`$exists(-"a")`, `!`},
+	{`$sum(["a"])`, `!`}, {`$count($number("x"))`, `!`}, {`$exists($toMillis("x"))`, `!`}, {`nothing ~> $error`, `!`}, {`$exists([1..1e9])`, `!`},
 	{`$map([1,2], function($v){nothing ~> $count})`, `[0,0]`}, {`(nothing; 1)`, `1`}, {`($x := nothing; $exists($x))`, `false`}, {`$reduce([1,2], function($a,$b){$a + $b}, nothing)`, `3`},
 }
 
@@ -49,6 +55,19 @@ func c10HasValueProbe(r *fw.Rec, c [2]string) {
 		r.Outcome(o.Class())
 		if o.Kind != "undefined" {
 			r.Violation("no-value-not-reported-as-ErrUndefined", c[0]+" on the input null denotes no value but Eval returned "+o.String(), nil)
+			return
+		}
+		r.Held()
+		return
+	}
+	if c[1] == "!" {
+		r.Begin(c[0], doc)
+		r.Tag("error-probe")
+		r.Nontrivial(c[0])
+		o := obs.Run(c[0], decodeDoc(doc))
+		r.Outcome(o.Class())
+		if o.Kind != "error" {
+			r.Violation("error-not-reported:"+o.Kind, c[0]+" denotes an error (not a value, not the absence of one) but Eval returned "+o.String(), nil)
 			return
 		}
 		r.Held()
